@@ -45,7 +45,7 @@ def mintedIn (s s' : Flow.St) : Option C07.RT :=
     of the driver compares exactly these with the real response); refresh results: the record the storage holds for
     the new token. -/
 def eventOf (s s' : Flow.St) : Flow.Op → Flow.Out → Option Event
-  | .authorize a, .loginPage id => some (.accepted { a with id := id, done := false, subject := "" })
+  | .authorize _ _, .loginPage _ => s'.store.authReqs.getLast?.map .accepted      -- the request the storage created
   | .login id subject authTime, _ => some (.login id subject authTime)
   | .callback id _, .code c => some (.code id c)
   | .exchange _ req _, .issued (.code a c _) nr | .exchangeDeleteFails _ req _, .issued (.code a c _) nr =>
@@ -449,10 +449,24 @@ theorem stepObs_eq {now : Int} {s : Flow.St} {o : ObsState} {op : Flow.Op} {s' :
 def Good04 (now : Int) (s : Flow.St) (o : ObsState) (op : Flow.Op) : Prop :=
   Inv04 (stepObs now (s, o) op).1.1 (stepObs now (s, o) op).1.2 ∧ (stepObs now (s, o) op).2.2.1 = none
 
-theorem good04_authorize {now : Int} {s : Flow.St} {o : ObsState} (h : Inv04 s o) (a : AuthReq) : Good04 now s o (.authorize a) := by
+theorem step_authorize (now : Int) (s : Flow.St) (a : AuthReq) (hint : FlowHint) :
+    Flow.step now s (.authorize a hint) =
+      match GenFlow.ValidateAuthReqIDTokenHint now (fun _ => hint.token) hint.raw (hintVerifier s) with
+      | .error e => (s, .error e)
+      | .ok sub =>
+        ({ (s.setStore { s.store with authReqs := s.store.authReqs ++ [{ a with id := "ar" ++ toString s.nextReq, done := false, subject := sub }] }) with
+            nextReq := s.nextReq + 1 }, .loginPage ("ar" ++ toString s.nextReq)) := rfl
+
+theorem good04_authorize {now : Int} {s : Flow.St} {o : ObsState} (h : Inv04 s o) (a : AuthReq) (hint : FlowHint) :
+    Good04 now s o (.authorize a hint) := by
   unfold Good04
-  rw [stepObs_eq (s' := _) (out := _) rfl]
-  simp only [eventOf, observe]
+  cases hv : GenFlow.ValidateAuthReqIDTokenHint now (fun _ => hint.token) hint.raw (hintVerifier s) with
+  | error e =>
+    rw [stepObs_eq (s' := s) (out := .error e) (by rw [step_authorize, hv])]
+    exact ⟨h, rfl⟩
+  | ok sub =>
+  rw [stepObs_eq (s' := _) (out := _) (by rw [step_authorize, hv])]
+  simp only [eventOf, St.store, St.setStore, List.getLast?_append, List.getLast?_singleton, Option.some_or, Option.map_some, observe]
   refine ⟨⟨?_, ?_, ?_, ?_, ?_⟩, trivial⟩
   · exact h.cfg
   · intro x hx
@@ -535,20 +549,80 @@ end FlowObs
 namespace FlowObs
 open Go Gen Hand Flow
 
+/-- the callback step, spelled out: the REGENERATED guard of `AuthorizeCallback` hands out a code only for a stored
+    request that is `Done()` -/
 theorem step_callback (now : Int) (s : Flow.St) (id code : String) :
+    Flow.step now s (.callback id code) =
+      if id == "" then (s, .error "ErrInvalidRequest") else
+      match s.store.authReqs.find? (·.id == id) with
+      | none => (s, .error "ErrInvalidRequest")
+      | some a =>
+        if !a.done then (s, .error "ErrInteractionRequired")
+        else (s.setStore { s.store with codes := (s.store.codes.filter (·.1 != code)) ++ [(code, id)] }, .code code) := by
+  simp only [Flow.step, GenFlow.AuthorizeCallback, Hand.flowParseCallback, Provider.Storage, Store.AuthRequestByID, AuthReq.Done,
+    Go.hcall, saveCode, St.store]
+  by_cases h0 : (id == "") = true
+  · simp [h0]
+  · simp only [h0, Bool.false_eq_true, if_false]
+    cases hf : s.p.store.authReqs.find? (·.id == id) with
+    | none => simp
+    | some a => by_cases hd : a.done = true <;> simp [hd]
+
+/-- ... for a non-empty id (every id the provider hands out) -/
+theorem step_callback' (now : Int) (s : Flow.St) {id : String} (code : String) (hid : id ≠ "") :
     Flow.step now s (.callback id code) =
       match s.store.authReqs.find? (·.id == id) with
       | none => (s, .error "ErrInvalidRequest")
       | some a =>
         if !a.done then (s, .error "ErrInteractionRequired")
-        else (s.setStore { s.store with codes := (s.store.codes.filter (·.1 != code)) ++ [(code, id)] }, .code code) := rfl
+        else (s.setStore { s.store with codes := (s.store.codes.filter (·.1 != code)) ++ [(code, id)] }, .code code) := by
+  rw [step_callback]
+  have : (id == "") = false := by simpa using hid
+  simp only [this, Bool.false_eq_true, if_false]
+
+/-- **The guard of the callback, as regenerated from `AuthorizeCallback`:** a code is handed out only for a stored
+    authorization request that is `Done()` - whatever subject an id_token_hint may have put on it -/
+theorem callback_guard (now : Int) (s : Flow.St) (id code c : String) (h : (Flow.step now s (.callback id code)).2 = .code c) :
+    ∃ a, s.store.authReqs.find? (·.id == id) = some a ∧ a.done = true ∧ c = code := by
+  rw [step_callback] at h
+  split at h
+  · simp at h
+  · split at h
+    · simp at h
+    · rename_i a hf
+      by_cases hd : a.done = true
+      · simp [hd] at h; exact ⟨a, hf, hd, h.symm⟩
+      · simp [hd] at h
+
+/-- what an id_token_hint can do to the pending request, as regenerated from `ValidateAuthReqIDTokenHint`: a subject on a
+    pending request always comes from a token `VerifyIDTokenHint` accepted (issuer, signature by the provider's own key) - as
+    valid or as merely expired; without a hint there is no subject -/
+theorem hint_subject_sound (now : Int) (tokenOf : String → Token) (raw : String) (v : Verifier) (sub : String)
+    (h : GenFlow.ValidateAuthReqIDTokenHint now tokenOf raw v = .ok sub) (hsub : sub ≠ "") :
+    raw ≠ "" ∧ ∃ c, c.sub = sub ∧
+      (Gen.VerifyIDTokenHint now (tokenOf raw) v = .ok (.valid c) ∨ ∃ e, Gen.VerifyIDTokenHint now (tokenOf raw) v = .ok (.expired c e)) := by
+  unfold GenFlow.ValidateAuthReqIDTokenHint Hand.flowViaToken at h
+  split at h
+  · simp at h; exact absurd h hsub
+  · rename_i hraw
+    refine ⟨by simpa using hraw, ?_⟩
+    cases hv : Gen.VerifyIDTokenHint now (tokenOf raw) v with
+    | error e => rw [hv] at h; simp at h
+    | ok o =>
+      rw [hv] at h
+      cases o with
+      | valid c => exact ⟨c, by simpa [Hand.flowHintClaims, Claims.GetSubject] using h, Or.inl rfl⟩
+      | expired c e => exact ⟨c, by simpa [Hand.flowHintClaims, Claims.GetSubject] using h, Or.inr ⟨e, rfl⟩⟩
 
 theorem good04_callback {now : Int} {s : Flow.St} {o : ObsState} (h : Inv04 s o) (id code : String) :
     Good04 now s o (.callback id code) := by
   unfold Good04
+  by_cases hid0 : id = ""
+  · rw [stepObs_eq (s' := s) (out := .error "ErrInvalidRequest") (by rw [step_callback]; simp [hid0])]
+    exact ⟨h, rfl⟩
   cases hf : s.store.authReqs.find? (·.id == id) with
   | none =>
-    rw [stepObs_eq (s' := s) (out := .error "ErrInvalidRequest") (by rw [step_callback, hf])]
+    rw [stepObs_eq (s' := s) (out := .error "ErrInvalidRequest") (by rw [step_callback' now s code hid0, hf])]
     exact ⟨h, rfl⟩
   | some a =>
     by_cases hd : a.done = true
@@ -556,7 +630,7 @@ theorem good04_callback {now : Int} {s : Flow.St} {o : ObsState} (h : Inv04 s o)
       have hmem := List.mem_of_find?_eq_some hf
       have hobs : o.reqs.find? (·.id == id) = some a := by rw [← hid]; exact h.reqs a hmem
       rw [stepObs_eq (s' := s.setStore { s.store with codes := (s.store.codes.filter (·.1 != code)) ++ [(code, id)] }) (out := .code code)
-        (by rw [step_callback, hf]; simp [hd])]
+        (by rw [step_callback' now s code hid0, hf]; simp [hd])]
       simp only [eventOf, observe, hobs, hd, if_true]
       refine ⟨⟨h.cfg, h.reqs, h.fresh, ?_, ?_⟩, trivial⟩
       · intro c id' hc
@@ -582,7 +656,7 @@ theorem good04_callback {now : Int} {s : Flow.St} {o : ObsState} (h : Inv04 s o)
             (by intro i hi'; have : i.code = c := by simpa using hi'
                 simp [this])]
           simp
-    · rw [stepObs_eq (s' := s) (out := .error "ErrInteractionRequired") (by rw [step_callback, hf]; simp [hd])]
+    · rw [stepObs_eq (s' := s) (out := .error "ErrInteractionRequired") (by rw [step_callback' now s code hid0, hf]; simp [hd])]
       exact ⟨h, rfl⟩
 
 theorem pkce_of_verify {now : Int} {ch : CodeChallenge} {v : String} (hv : v ≠ "")
@@ -862,7 +936,7 @@ theorem good04_refresh {now : Int} {s : Flow.St} {o : ObsState} (h : Inv04 s o) 
 /-- one step: the invariant is kept and the C04 monitor has nothing to object -/
 theorem good04_step (now : Int) {s : Flow.St} {o : ObsState} (h : Inv04 s o) (op : Flow.Op) : Good04 now s o op := by
   cases op with
-  | authorize a => exact good04_authorize h a
+  | authorize a hint => exact good04_authorize h a hint
   | login id subject authTime => exact good04_login h id subject authTime
   | callback id code => exact good04_callback h id code
   | exchange rt req ha => exact good04_exchange h rt req ha
@@ -951,7 +1025,7 @@ def demoState : Flow.St :=
   { p := { store := { clients := [demoWeb, demoPub] }, issuer := "https://op.example", refreshSupported := true, postSupported := true } }
 
 def demoAuthorize : Flow.Op :=
-  .authorize { clientID := "web", redirectURI := "https://rp.example/cb", scopes := ["openid", "email", "offline_access"], nonce := "n-1" }
+  .authorize { clientID := "web", redirectURI := "https://rp.example/cb", scopes := ["openid", "email", "offline_access"], nonce := "n-1" } {}
 def demoExchange (rt : Router) : Flow.Op :=
   .exchange rt { Code := "c1", RedirectURI := "https://rp.example/cb", ClientID := "web", ClientSecret := "s3cret" } false
 def demoRefresh (rt : Router) (tok : String) (scopes : List String) : Flow.Op :=
@@ -1068,9 +1142,15 @@ theorem eventOf_code {s : Flow.St} {op : Flow.Op} {now : Int} {id code : String}
     · simp [eventOf] at h
     · split at h
       · simp [eventOf] at h
-      · simp only [eventOf, Option.some.injEq, Event.code.injEq] at h
-        rw [h.1, h.2]
-  | authorize a => simp [Flow.step, eventOf] at h
+      · split at h
+        · simp [eventOf] at h
+        · simp only [eventOf, Option.some.injEq, Event.code.injEq] at h
+          rw [h.1, h.2]
+  | authorize a hint =>
+    rw [step_authorize] at h
+    split at h
+    · simp [eventOf] at h
+    · simp [eventOf] at h
   | login a b c => simp [eventOf] at h
   | exchange rt req ha =>
     rw [step_exchange] at h
@@ -1200,22 +1280,32 @@ end C04
 namespace FlowObs
 open Go Gen Hand Flow
 
-/-- every step of the model is an event for the observer, except a callback that ended in an error (nothing was
-    handed out): the history theorems do not skip anything -/
+/-- every step of the model is an event for the observer, except the two that hand out nothing: a callback that ended in an
+    error and an authorization request that was refused (invalid id_token_hint): the history theorems do not skip anything -/
 theorem eventOf_complete (now : Int) (s : Flow.St) (op : Flow.Op)
     (h : eventOf s (Flow.step now s op).1 op (Flow.step now s op).2 = none) :
-    ∃ id code e, op = .callback id code ∧ (Flow.step now s op).2 = .error e := by
+    (∃ e, (Flow.step now s op).2 = .error e) ∧ ((∃ id code, op = .callback id code) ∨ (∃ a hint, op = .authorize a hint)) := by
   cases op with
   | callback id code =>
-    rw [step_callback] at h ⊢
+    refine ⟨?_, Or.inl ⟨id, code, rfl⟩⟩
+    by_cases hid0 : id = ""
+    · rw [step_callback]; simp [hid0]
+    · rw [step_callback' now s code hid0] at h ⊢
+      cases hf : s.store.authReqs.find? (·.id == id) with
+      | none => exact ⟨_, rfl⟩
+      | some a =>
+        rw [hf] at h
+        by_cases hd : a.done = true
+        · simp [hd, eventOf] at h
+        · simp [hd]
+  | authorize a hint =>
+    refine ⟨?_, Or.inr ⟨a, hint, rfl⟩⟩
+    rw [step_authorize] at h ⊢
     split
-    · exact ⟨id, code, _, rfl, rfl⟩
-    · rename_i a hf
-      rw [hf] at h
-      by_cases hd : a.done = true
-      · simp [hd, eventOf] at h
-      · simp only [hd]; exact ⟨id, code, _, rfl, rfl⟩
-  | authorize a => simp [Flow.step, eventOf] at h
+    · exact ⟨_, rfl⟩
+    · rename_i sub hv
+      rw [hv] at h
+      simp [eventOf, St.store, St.setStore] at h
   | login a b c => simp [eventOf] at h
   | exchange rt req ha =>
     rw [step_exchange] at h
@@ -1280,5 +1370,77 @@ example : ((runObs 0 (demoState, obsOf demoState)
        demoExchange .legacy, demoExchange .legacy]).2.map fun x => (outKind x.1, x.2.1, x.2.2)) =
   [("login", none, none), ("done", none, none), ("code", none, none), ("error:ErrServerError", none, none),
    ("tokens", none, none), ("error:ErrInvalidGrant", none, none)] := by decide
+
+/-! Hinted requests: an `id_token_hint` puts its subject on the pending request (valid and expired alike), and the callback
+    still refuses the request until somebody logged in. -/
+
+def demoOPKey : JWK := { KeyID := "sig1", Use := "sig", kty := .rsa, keyNo := 0 }
+def demoHintState : Flow.St := { demoState with hintKeys := { kind := .published, keys := [demoOPKey] } }
+/-- an ID token of this provider for user `victim`, signed by key pair `signer` -/
+def demoHintTok (signer : Nat) (exp iat : Int) : Token :=
+  let p : Payload := { bytes := 1, claims := some { iss := "https://op.example", sub := "victim", aud := ["web"], azp := "web", exp := exp, iat := iat } }
+  let hdr : JHeader := { Algorithm := "RS256", KeyID := "sig1" }
+  { segs := 3, middle := some p, jws := some { Signatures := [{ Header := hdr, signer := some signer, signedAlg := "RS256", signedBytes := 1, signedHdr := hdr }], payload := p } }
+def demoNow : Int := 2000000100 * Go.second
+def demoAuthorizeHinted (t : Token) : Flow.Op :=
+  .authorize { clientID := "web", redirectURI := "https://rp.example/cb", scopes := ["openid"], nonce := "n-1" } { raw := "hint", token := t }
+def demoExchangeAt (rt : Router) : Flow.Op :=
+  .exchange rt { Code := "c1", RedirectURI := "https://rp.example/cb", ClientID := "web", ClientSecret := "s3cret" } false
+
+/-- a VALID hint, no login: the request carries the victim's subject, the callback is refused, no code exists, the exchange
+    fails - on both routers; the observer has nothing to object -/
+example : ∀ rt : Router,
+    let r := runObs demoNow (demoHintState, obsOf demoHintState)
+      [demoAuthorizeHinted (demoHintTok 0 2000003600 2000000000), .callback "ar1" "c1", demoExchangeAt rt]
+    r.2.map (fun x => (showOutShort x.1, x.2.1)) =
+      [("login:ar1", none), ("error:ErrInteractionRequired", none), ("error:ErrInvalidGrant", none)] ∧
+    r.1.1.store.authReqs.map (fun a => (a.subject, a.done)) = [("victim", false)] := by
+  intro rt; cases rt <;> decide
+
+/-- an EXPIRED hint: whatever the provider makes of it (the code that exists accepts it and stores the subject), no code
+    is handed out without a login and the observer has nothing to object -/
+example :
+    let r := runObs demoNow (demoHintState, obsOf demoHintState) [demoAuthorizeHinted (demoHintTok 0 1000003600 1000000000), .callback "ar1" "c1"]
+    r.2.map (fun x => (outKind x.1 == "code", x.2.1)) = [(false, none), (false, none)] ∧
+    r.1.1.store.authReqs.all (fun a => !a.done) = true := by decide
+
+/-- a hint signed with another key refuses the request (login_required); nothing is stored -/
+example :
+    let r := runObs demoNow (demoHintState, obsOf demoHintState) [demoAuthorizeHinted (demoHintTok 5 2000003600 2000000000), .callback "ar1" "c1"]
+    r.2.map (fun x => (showOutShort x.1, x.2.1)) = [("error:ErrLoginRequired", none), ("error:ErrInvalidRequest", none)] ∧
+    r.1.1.store.authReqs = [] := by decide
+
+/-- after the login the hinted request completes, and the tokens carry the subject that logged in -/
+example : ((runObs demoNow (demoHintState, obsOf demoHintState)
+      [demoAuthorizeHinted (demoHintTok 0 2000003600 2000000000), .callback "ar1" "c1", .login "ar1" "user1" 1000, .callback "ar1" "c1",
+       demoExchangeAt .legacy]).2.map fun x => (showOutShort x.1, x.2.1)) =
+    [("login:ar1", none), ("error:ErrInteractionRequired", none), ("done", none), ("code:c1", none), ("tokens:user1:web:-", none)] := by decide
+
+/-- the monitor is not silent about it: a code handed out for the hinted request nobody logged in on, and tokens for it, are flagged -/
+example :
+    let o := (runObs demoNow (demoHintState, obsOf demoHintState) [demoAuthorizeHinted (demoHintTok 0 2000003600 2000000000)]).1.2
+    (observe demoNow o (.code "ar1" "c1")).2.1 = some "code-for-uncompleted-request" ∧
+    (observe demoNow (observe demoNow o (.code "ar1" "c1")).1
+      (.exchange { clientID := "web", secret := "s3cret", code := "c1", redirectURI := "https://rp.example/cb" }
+        (some { subject := "victim", client := "web", scopes := ["openid"], nonce := "n-1" }) none)).2.1 = some "request-not-completed" := by decide
+
+/-! An unusual but legal registration: application type WEB with auth method NONE.  It is a public client for the token
+    endpoint: a code of a request without challenge is not redeemable with the bare client_id, on either router. -/
+def demoSpa : OPClient :=
+  { id := "spa", auth := "none", app := 0, grants := ["authorization_code"], redirectURIs := ["https://rp.example/cb"], respTypes := ["code"] }
+def demoSpaState : Flow.St := { demoState with p := { demoState.p with store := { clients := [demoWeb, demoPub, demoSpa] } } }
+
+example : ∀ rt : Router, ((runObs 0 (demoSpaState, obsOf demoSpaState)
+      [.authorize { clientID := "spa", redirectURI := "https://rp.example/cb", scopes := ["openid"] } {}, .login "ar1" "user1" 1000, .callback "ar1" "c1",
+       .exchange rt { Code := "c1", RedirectURI := "https://rp.example/cb", ClientID := "spa" } false]).2.map fun x => (showOutShort x.1, x.2.1)) =
+    [("login:ar1", none), ("done", none), ("code:c1", none), ("error:ErrInvalidRequest", none)] := by
+  intro rt; cases rt <;> decide
+
+/-- ... and the monitor would object to tokens for it -/
+example :
+    let o := (runObs 0 (demoSpaState, obsOf demoSpaState)
+      [.authorize { clientID := "spa", redirectURI := "https://rp.example/cb", scopes := ["openid"] } {}, .login "ar1" "user1" 1000, .callback "ar1" "c1"]).1.2
+    (observe 0 o (.exchange { clientID := "spa", code := "c1", redirectURI := "https://rp.example/cb" }
+      (some { subject := "user1", client := "spa", scopes := ["openid"], nonce := "" }) none)).2.1 = some "pkce" := by decide
 
 end C04
